@@ -598,6 +598,147 @@ def _judge(res: RuleResult, construct: str, stored: ast.AST, is_raw, filters, mo
         res.ok(construct, f"stores `{short(stored, 60)}` verbatim")
 
 
+
+def _is_cost_read(expr: ast.AST) -> bool:
+    """`<x>.costs[k]`, `costs[k]`, `<x>.costs.get(k...)`, `getattr(args, f"cost_...")`."""
+    if isinstance(expr, ast.Subscript):
+        name = dotted(expr.value) or ""
+        return name.split(".")[-1] == "costs"
+    if isinstance(expr, ast.Call) and isinstance(expr.func, ast.Attribute) and expr.func.attr == "get":
+        name = dotted(expr.func.value) or ""
+        return name.split(".")[-1] in ("costs", "given_costs")
+    if isinstance(expr, ast.Call) and dotted(expr.func) == "getattr" and len(expr.args) >= 2:
+        second = expr.args[1]
+        if isinstance(second, ast.JoinedStr) and second.values and isinstance(second.values[0], ast.Constant):
+            return str(second.values[0].value).startswith("cost_")
+        if isinstance(second, ast.Constant) and isinstance(second.value, str):
+            return second.value.startswith("cost_")
+    return False
+
+
+def _is_default_cost(fn: ast.AST, expr: ast.AST, mod: Module) -> bool:
+    """The expression is a default unit cost: an element of get_default_cost()."""
+    def from_defaults(e: ast.AST, depth: int = 0) -> bool:
+        if depth > 4:
+            return False
+        if isinstance(e, ast.Call) and dotted(e.func) == "get_default_cost":
+            return True
+        if isinstance(e, ast.Call) and isinstance(e.func, ast.Attribute) and e.func.attr in ("items", "values", "get"):
+            return from_defaults(e.func.value, depth + 1)
+        if isinstance(e, ast.Subscript):
+            return from_defaults(e.value, depth + 1)
+        if isinstance(e, ast.Name) and hasattr(e, "lineno"):
+            val = reaching(fn, e.id, e)
+            if val is not None and not isinstance(val, Opaque):
+                return from_defaults(val, depth + 1)
+        return False
+
+    if from_defaults(expr):
+        return True
+    if isinstance(expr, ast.Name):
+        # loop / comprehension variable over get_default_cost().items()
+        for node in ast.walk(fn):
+            gens = node.generators if isinstance(node, (ast.DictComp, ast.ListComp, ast.SetComp, ast.GeneratorExp)) else []
+            loops = [node] if isinstance(node, ast.For) else []
+            for g in list(gens) + loops:
+                names = {n.id for n in ast.walk(g.target) if isinstance(n, ast.Name)}
+                if expr.id in names and from_defaults(g.iter):
+                    return True
+    return False
+
+
+def cost_truth(prog: Program) -> RuleResult:
+    res = RuleResult(
+        "COST-TRUTH",
+        "a unit cost is never used as a truth value to choose between itself and a fallback "
+        "(`cost or default`, `cost if cost else default`): 0 is a legitimate unit cost and is falsy, so the "
+        "fallback silently replaces an explicit zero - in the solvers, in the model and on the command line",
+    )
+    n_reads = 0
+    for mod, qual, fn in prog.functions():
+        key = mod.name.split(".", 1)[1] if "." in mod.name else mod.name
+        for node in walk_no_nested(fn):
+            if _is_cost_read(node):
+                n_reads += 1
+            first = fallback = None
+            if isinstance(node, ast.BoolOp) and isinstance(node.op, ast.Or) and len(node.values) >= 2:
+                first, fallback = node.values[0], node.values[-1]
+            elif isinstance(node, ast.IfExp):
+                test = node.test
+                neg = False
+                while isinstance(test, ast.UnaryOp) and isinstance(test.op, ast.Not):
+                    test, neg = test.operand, not neg
+                if ast.dump(test) == ast.dump(node.orelse if neg else node.body):
+                    first, fallback = test, (node.body if neg else node.orelse)
+            if first is None:
+                continue
+            if _is_cost_read(first) or _is_default_cost(fn, fallback, mod):
+                # a plain name on the left is only suspicious when the fallback is a default cost
+                res.fail(
+                    f"{key}:{qual}/cost-or-default",
+                    f"`{short(node, 80)}` falls back to `{short(fallback, 40)}` whenever the cost is falsy: an explicit "
+                    "cost of 0 is replaced",
+                    mod,
+                    node,
+                )
+    if n_reads < 15:
+        raise AnalysisError(f"COST-TRUTH: only {n_reads} unit-cost reads found in the package")
+    if not res.findings:
+        res.ok("package/cost-reads", f"{n_reads} unit-cost reads, none used as a truth value with a fallback")
+    return res
+
+
+# ---------------------------------------------------------------------------
+# ordered syntenies keep their order
+
+
+def order_preserved(prog: Program) -> RuleResult:
+    res = RuleResult(
+        "ORDER-PRESERVED",
+        "a synteny is only re-ordered (sort_synteny / sorted) when it is known to be a set: the sorting branch "
+        "of serialize_synteny_mapping and format_synteny is guarded by isinstance(<synteny>, set/frozenset), "
+        "every other container (list, tuple, str) is written in its own order",
+    )
+    modname = "model.synteny"
+    mod = prog.module(modname)
+    n = 0
+    for fname in ("serialize_synteny_mapping", "format_synteny"):
+        fn = prog.func(modname, fname)
+        for call in ast.walk(fn):
+            if not (isinstance(call, ast.Call) and dotted(call.func) in ("sort_synteny", "sorted") and call.args):
+                continue
+            n += 1
+            construct = f"{modname}:{fname}/sorting-branch"
+            arg = dotted(call.args[0])
+            gs = guards(fn, call)
+            ok = False
+            for test, pol in gs:
+                if (
+                    pol
+                    and isinstance(test, ast.Call)
+                    and dotted(test.func) == "isinstance"
+                    and len(test.args) == 2
+                    and dotted(test.args[0]) == arg
+                ):
+                    kinds = test.args[1].elts if isinstance(test.args[1], ast.Tuple) else [test.args[1]]
+                    names = {dotted(k) for k in kinds}
+                    if names and names <= {"set", "frozenset", "Set", "AbstractSet", "abc.Set"}:
+                        ok = True
+            if ok:
+                res.ok(construct, f"`{short(call)}` only under isinstance({arg}, set)")
+            else:
+                cond = " and ".join(("" if p else "not ") + short(t, 60) for t, p in gs) or "unconditionally"
+                res.fail(
+                    construct,
+                    f"`{short(call)}` re-orders the synteny under `{cond}`, which does not establish that it is a set: "
+                    "an ordered synteny held in another container (a string, a tuple) is written back sorted",
+                    mod,
+                    call,
+                )
+    if n < 2:
+        raise AnalysisError(f"ORDER-PRESERVED: only {n} sorting sites found in model/synteny.py")
+    return res
+
 # ---------------------------------------------------------------------------
 # class dispatch on the presence of a key
 
@@ -1301,6 +1442,8 @@ def cli_cost_source(prog: Program) -> RuleResult:
 
 
 RULES = {
+    "COST-TRUTH": cost_truth,
+    "ORDER-PRESERVED": order_preserved,
     "DISPATCH-KEYS": dispatch_keys,
     "COST-PASSTHROUGH": cost_passthrough,
     "DICT-KEYS": dict_keys,
